@@ -112,6 +112,10 @@ def oracle(line: str, obs: Obs):
     _, conn, base, limit, kind, ids = f[:6]
     peer = f[6] if len(f) > 6 else "peer3.x"
     cfg = line.split("|")[0].strip()
+    # (the fresh node is not subjected to the injected interleaving)
+    cfg = ";".join(x for x in cfg.split(";") if not x.startswith("midroute=") and not x.startswith("NODE midroute=")) if "midroute=" in cfg else cfg
+    if not cfg.startswith("NODE "):
+        cfg = "NODE " + cfg
     got = probe_view(obs)
     want = fresh_view(cfg, int(limit), kind, int(ids), peer)
     if got != want:
@@ -409,8 +413,24 @@ def during_scenarios() -> list[str]:
     return out
 
 
+def midroute_scenarios() -> list[str]:
+    """The connection is lost (I/O thread) while the application's answer is inside `route_answer`, after the pending
+    request was found and before its entry is removed — the real method stepped line by line, the loss injected at that
+    point: whatever the submission raises then, the response consumer of a threading application survives it, the slot
+    comes back and the next peer is served.  Judged by the direct oracle only (the model is sequential)."""
+    out = []
+    cer1 = nodegen.cer("peer1.x", "4", 601, 602)
+    for limit in (1, 2):
+        for fault in ("eof_1+tick", "rerr_1_hard+tick", "rerr_1_hardT+tick", "wr_1_hard+tick"):
+            cfg = config("t", limit).replace("NODE ", f"NODE midroute={fault};", 1)
+            evs = ["start fail", "acc", f"rx 1 {cer1}", "rx 1 " + nodegen.ccr(603, 604), "handler 0", "tick",
+                   f"mark probe:2:1:{limit}:t:700"] + probe_events(2, 1, limit, "t", 700)
+            out.append(cfg + " | " + " | ".join(evs))
+    return out
+
+
 def scenarios(rng: random.Random, tier: str) -> list[str]:
-    out = corpus() + during_scenarios()
+    out = corpus() + during_scenarios() + midroute_scenarios()
     # systematic: every first episode x application kind x thread limit 0..3 x 1..3 faults
     reps = 2 if tier == "quick" else 30
     for kind in ("t", "b"):
